@@ -21,7 +21,8 @@ EXPLANATION = (
     "(3) Frame: the header / footer setters move the focus back to 'body' when the part being removed is the focused one (the test names the setter's own part); (4) RET: every keypress() "
     "returns None, the key, or a child/super/helper keypress result; (5) focus-only routing: in each container keypress the child receiving the key is the focus child; (6) get_focus_path "
     "and set_focus_path walk focus_position and focus.base_widget in the same order; (7) focus moves made by keypress / move_cursor_to_coords in Pile and Columns only land on children whose "
-    "selectable() was tested on that path; (8) the dict-like Frame.contents does not define __len__/__iter__ through the Mapping mixin methods that are themselves derived from them."
+    "selectable() was tested on that path; (9) the focus-tracking list behind Pile/Columns/GridFlow/list walkers keeps its index valid structurally (shared with C16: the focus setter validates and pins the "
+    "empty list to 0, single indices are converted with slice(i, i + 1 or None), every mutator computes the focus before one list call and stores it after); (8) the dict-like Frame.contents does not define __len__/__iter__ through the Mapping mixin methods that are themselves derived from them."
 )
 NOT_DECIDED = "Validity of the index after arbitrary edit histories (C16's arithmetic), the choice of the arrow-key target, which widgets are rendered with focus=True, ListBox focus bookkeeping."
 ASSUMPTIONS = []
@@ -339,7 +340,15 @@ def rule_mapping_cycle(ctx: Ctx) -> RuleResult:
 
 def run(ctx: Ctx):
     p = ctx.p
+    from . import c16
+
+    shared = []
+    for fn, cl in ((c16.rule_focus_setter, "C08.9a"), (c16.rule_index_slice_idiom, "C08.9b"), (c16.rule_order, "C08.9c")):
+        r = fn(ctx)
+        r.clause = cl
+        shared.append(r)
     return [
+        *shared,
         rule_setters(ctx),
         rule_selectable(ctx),
         rule_frame_repair(ctx),
